@@ -71,3 +71,19 @@ package io
 
 //@ func (*offsetReadSeeker).Position
 //@   ensures def [C07]: result == wrap_s64(pos(o) - sbase(o))
+
+//@ func (*offsetReadSeeker).Seek
+//@   implements (io.Seeker).Seek
+//@   modifies o.off, pos(o)
+//@   ghost before call[offsetReadSeeker.Position#0]: pos(o) := o.off
+
+//@ func (*offsetReadSeeker).Read
+//@   implements (io.Reader).Read
+//@   assume no_wrap: 0 <= o.off && o.off <= 4611686018427387904
+//@   ensures strict [C09]: (n < len(p) ==> err != nil) && (n == len(p) && len(p) > 0 ==> err == nil)
+//@   modifies o.off, pos(o)
+//@   ghost before return: pos(o) := o.off
+
+//@ func (*offsetReadSeeker).ReadByte
+//@   implements (io.ByteReader).ReadByte
+//@   modifies o.off, pos(o)
